@@ -412,6 +412,11 @@ class PassiveState(State):
         occupation_numbers = fallback_np.delete(
             self._occupation_numbers, relevant_indices, axis=0
         )
+        coefficients = [
+            coefficient
+            for index, coefficient in enumerate(self._coefficients)
+            if index not in relevant_indices
+        ]
 
         state_vector = np.zeros(
             shape=cutoff_fock_space_dim(d=self.d, cutoff=self._config.cutoff),
@@ -430,9 +435,9 @@ class PassiveState(State):
                 d=self.d,
                 cutoff=particle_number - postselected_no_of_photons + 1,
             )
-            coefficient = self._coefficients[index]
+            coefficient = coefficients[index]
 
-            input_state = self._occupation_numbers[index]
+            input_state = occupation_numbers[index]
 
             partial_state_vector = calculate_state_vector_func(
                 initial_state=input_state,
